@@ -561,6 +561,10 @@ class Exec(ExprMixin, CallMixin):
         if isinstance(obj.t, T.Dict):
             self.nonnull(obj, st, 'subscript')
             self.dict_set(obj, idx, v, st)
+        elif isinstance(obj.t, T.Ref) and obj.t.cls != '$any' and not self.is_listlike(obj) \
+                and self.eng.find_method(obj.t.cls, '__setitem__') is not None:
+            self.nonnull(obj, st, 'subscript')
+            self.call_contract(self.eng.find_method(obj.t.cls, '__setitem__'), [obj, idx, v], {}, st, None)
         elif self.is_listlike(obj) and not isinstance(obj.t, T.Seq):
             self.nonnull(obj, st, 'subscript')
             m = None
@@ -668,7 +672,18 @@ class Exec(ExprMixin, CallMixin):
         return sv.check() == z3.unsat
 
     def st_With(self, s, st):
-        raise Unsupported('with statement at line %s' % s.lineno)
+        """`with EXPR as NAME: body` for context managers whose __exit__ neither swallows exceptions nor has modelled
+        effects (files): evaluate EXPR (through its contract), bind NAME, run the body."""
+        for item in s.items:
+            v = self.ev(item.context_expr, st)
+            if item.optional_vars is not None:
+                self.assign(item.optional_vars, v, st)
+        out = Out()
+        self.take_exits(out)
+        o = self.block(s.body, st)
+        out.absorb(o)
+        out.normals = o.normals
+        return out
 
     def st_Try(self, s, st):
         if s.finalbody:
@@ -1208,7 +1223,7 @@ class Exec(ExprMixin, CallMixin):
         """Segment verification: start at the entry of loop `ordn` with contract.start_assume as precondition."""
         node = self.loops[ordn]
         for nm, ts in self.c.locals.items():
-            if nm == '[]':
+            if nm in ('[]', '{}'):
                 continue
             t = self.eng.ptype(ts)
             v = SV(t, t.fresh('l_' + nm))
